@@ -133,6 +133,7 @@ pub const SET_CORE: &[(Kd, u32)] = &[
     (Kd::ContainsKey, 3),
     (Kd::Entry, 5),
     (Kd::Extend, 3),
+    (Kd::ExtendRef, 2),
     (Kd::FromIter, 1),
     (Kd::Clear, 1),
     (Kd::Reserve, 1),
@@ -142,7 +143,7 @@ pub const SET_CORE: &[(Kd, u32)] = &[
     (Kd::WithCapacity, 1),
     (Kd::New, 1),
 ];
-const SET_WORLDS: &[(&str, u32)] = &[("S8", 6), ("S24", 6), ("S1", 4), ("S2", 4), ("Sz", 1), ("Ss", 2)];
+const SET_WORLDS: &[(&str, u32)] = &[("S8", 6), ("S24", 6), ("S1", 4), ("S2", 4), ("Sz", 1), ("Ss", 2), ("Sp", 2)];
 
 /// The HashSet variant of a property's profile (None: the property has no set part).
 fn set_spec(prop: &str, thorough: bool, rng: &mut Rng, universe: u32, n_ops: usize) -> Option<RunSpec> {
@@ -382,7 +383,9 @@ fn spec_for_inner(prop: &str, thorough: bool, rng: &mut Rng) -> RunSpec {
             // composite operations; tag sets steer reached groups onto the carry-sensitive neighbours
             // maps only: with duplicates and partially consumed iterators a HashTable history legitimately
             // depends on the bucket layout, which differs between group widths
-            let table = false;
+            // a fifth of the scenarios are HashTable histories after all: they are replayed under the second back-end
+            // too, but judged there by the reference model only (no transcript comparison, see runner.rs)
+            let table = rng.below(5) == 0;
             let world = if table { "T24".to_string() } else { pick_world(rng, &[("M16", 3), ("Mpod", 2)]) };
             let mut cfg = base_cfg(rng, 3);
             cfg.group_monitor = true;
@@ -478,7 +481,7 @@ pub fn owns(prop: &str, v: &Violation) -> bool {
         // the control bytes) there is a key and hasher whose lookup answers wrongly
         "C01" => (functional || starts(c, "entry/") || starts(c, "retain/visits") || starts(c, "inv/")) && MAP_CORE_OPS.contains(&k),
         // (a dead element that is still stored after an unwind is a dangling reference waiting to be handed out)
-        "C02" => safety || starts(c, "postpanic/dead-element") || starts(c, "panic/") || starts(c, "alloc/size-mismatch") || starts(c, "alloc/over-reservation"),
+        "C02" => safety || starts(c, "getmany/alias") || starts(c, "postpanic/dead-element") || starts(c, "panic/") || starts(c, "alloc/size-mismatch") || starts(c, "alloc/over-reservation"),
         // an element that is still stored after it was dropped, or that vanished without being dropped, while a
         // callback panic unwinds is the exactly-once statement under unwinding
         "C03" => starts(c, "inv/I2") || starts(c, "postpanic/dead-element") || starts(c, "postpanic/leaked-element") || starts(c, "ledger/") || starts(c, "alloc/leak") || starts(c, "alloc/double-free") || starts(c, "alloc/bad-free") || starts(c, "alloc/layout-mismatch") || starts(c, "alloc/size-mismatch") || starts(c, "cap/alloc-on-new"),
@@ -495,7 +498,7 @@ pub fn owns(prop: &str, v: &Violation) -> bool {
         "C14" => starts(c, "entry/") || (k == "Entry" && (functional || starts(c, "inv/"))),
         "C19" => starts(c, "par/") || (k == "Par" && (functional || starts(c, "ledger/") || starts(c, "alloc/") || starts(c, "inv/"))),
         "C20" => starts(c, "serde/") || starts(c, "alloc/over-reservation") || (["SerdeRoundTrip", "SerdeStream"].contains(&k) && (functional || starts(c, "ledger/") || starts(c, "alloc/") || starts(c, "inv/"))),
-        "C18" => starts(c, "group/") || starts(c, "differential/") || functional || starts(c, "entry/") || starts(c, "inv/"),
+        "C18" => starts(c, "group/") || starts(c, "differential/") || functional || starts(c, "entry/") || starts(c, "inv/") || starts(c, "iterhash/") || starts(c, "retain/") || starts(c, "extract/") || starts(c, "drain/") || starts(c, "reinsert/") || starts(c, "getmany/") || starts(c, "iterlen/") || starts(c, "iter/"),
         "C15" => starts(c, "getmany/") || (functional && ["GetMany", "GetManyKv", "TGetMany"].contains(&k)),
         _ => true,
     }
